@@ -21,6 +21,9 @@ var tokenChainNames = []string{"chainaaaa", "chainbbbb", "chaincccc", "chaindddd
 // path elements goes wrong.
 var lookalikeChainNames = []string{"irishub-mainnet", "hub-mainnet", "sub-irishub-mainnet", "hub-mainnet.x"}
 
+// c04ChainFirst, when set, makes the class-name grammar of runC04 start names with chain names.
+var c04ChainFirst bool
+
 // tokenNamesOverride, when set, replaces tokenChainNames for the run in progress.
 var tokenNamesOverride []string
 
@@ -38,6 +41,11 @@ func init() {
 		Doc: "2-4 chains, direct and relayed routes; users issue classes from an adversarial set (names that look like voucher paths, contain '/', start with the path prefix), mint, transfer locally, send across chains to users of other chains, send vouchers onward and back, burn; honest relayer with reordering, duplication and error acks; NftModel identities checked after every tx"})
 	register(&core.Profile{Name: "c04-lookalike-chains", Property: "C04", Weight: 1, Run: withLookalikeChains(func(c *core.Ctx) { runC04(c, false) }),
 		Doc: "c04-nft-conservation in a world whose chain names are suffixes / prefixes of one another (irishub-mainnet, hub-mainnet, sub-irishub-mainnet, hub-mainnet.x)"})
+	register(&core.Profile{Name: "c04-chain-named-classes", Property: "C04", Weight: 1, Run: func(c *core.Ctx) {
+		c04ChainFirst = true
+		defer func() { c04ChainFirst = false }()
+		runC04(c, false)
+	}, Doc: "c04-nft-conservation with native class names whose first segment is a chain name (<chain>/zz/kitty): further along a route such a name reads like part of a voucher path"})
 	register(&core.Profile{Name: "c04-nft-conservation-crash", Property: "C04", Weight: 1, Fault: true, Run: func(c *core.Ctx) { runC04(c, true) },
 		Doc: "same with crash/restart between steps"})
 }
@@ -151,6 +159,9 @@ func nftHooks(c *core.Ctx, e *scen.Engine, m *model.NftModel) {
 func runC04(c *core.Ctx, crashes bool) {
 	ch := c.Ch
 	nChains := ch.Range(2, 4)
+	if c04ChainFirst && nChains < 4 && ch.Bool(2, 3) {
+		nChains = 4 // long routes: a name is misread only some hops away from its origin
+	}
 	w, e := buildTokenWorld(c, nChains)
 	m := model.NewNftModel(world.ModuleAddr("NFT"))
 	for _, n := range w.Nodes {
@@ -165,6 +176,12 @@ func runC04(c *core.Ctx, crashes bool) {
 	for _, n := range w.Nodes {
 		segs = append(segs, n.Name, n.Name)
 	}
+	if c04ChainFirst { // native classes whose FIRST segment is a chain name: "<chain>/zz/kitty"
+		firsts = []string{"kitty", "zz"}
+		for _, n := range w.Nodes {
+			firsts = append(firsts, n.Name, n.Name)
+		}
+	}
 	for k := 0; k < 6; k++ {
 		nseg := 1 + ch.Int(5)
 		parts := []string{firsts[ch.Int(len(firsts))]}
@@ -176,6 +193,9 @@ func runC04(c *core.Ctx, crashes bool) {
 		}
 		if ch.Bool(1, 2) { // the shape of a one-hop voucher path: <first>/<chain>/<x>/<victim class>
 			parts = []string{parts[0], w.Nodes[ch.Int(len(w.Nodes))].Name, segs[ch.Int(len(segs))], "kitty"}
+		}
+		if c04ChainFirst && ch.Bool(2, 3) { // the tail of a longer path: <chain>/<x>/<victim class>
+			parts = []string{w.Nodes[ch.Int(len(w.Nodes))].Name, segs[ch.Int(len(segs))], "kitty"}
 		}
 		classes = append(classes, strings.Join(parts, "/"))
 	}
@@ -205,6 +225,9 @@ func runC04(c *core.Ctx, crashes bool) {
 		}
 	}
 	steps := (60 + ch.Int(90)) * c.Scale
+	if c04ChainFirst {
+		steps *= 2
+	}
 	for i := 0; i < steps; i++ {
 		c.Step("c04")
 		n := w.Nodes[ch.Int(len(w.Nodes))]
@@ -241,6 +264,17 @@ func runC04(c *core.Ctx, crashes bool) {
 		case 4:
 			if len(owned) > 0 {
 				t := owned[ch.Int(len(owned))]
+				if c04ChainFirst && ch.Bool(2, 3) { // keep vouchers travelling: multi-hop journeys
+					var vs []world.NFTInfo
+					for _, x := range owned {
+						if strings.HasPrefix(x.Class, "tibc-") {
+							vs = append(vs, x)
+						}
+					}
+					if len(vs) > 0 {
+						t = vs[ch.Int(len(vs))]
+					}
+				}
 				var others []*world.Node
 				for _, o := range w.Nodes {
 					if o != n {
